@@ -9,6 +9,8 @@ pub enum Ty {
     Str,
     Float,
     List,
+    /// a variable holding a divert target (`VAR d = -> knot`)
+    Divert,
 }
 
 #[derive(Debug, Clone, PartialEq)]
@@ -533,6 +535,9 @@ impl Program {
     /// feature classes of this program (for the evidence histogram)
     pub fn features(&self) -> Vec<&'static str> {
         let mut f = std::collections::BTreeSet::new();
+        if self.globals.iter().any(|g| g.ty == Ty::Divert) {
+            f.insert("divert_variable");
+        }
         fn block(b: &Block, depth: usize, f: &mut std::collections::BTreeSet<&'static str>) {
             stmts(&b.stmts, f);
             if let Some(g) = &b.group {
